@@ -336,9 +336,71 @@ func init() {
 			{"M1", "AdjustOffs rebases every PField component of PsipURI (all but Scheme) with the same expression Offs - oldStart + newStart under its presence test, and Scheme.Offs = newStart; the old start is read before it is overwritten", ruleM1},
 			{"M2", "refusal does not mutate: no store through the receiver on any path to `return false`", ruleM2},
 			{"M3", "relocation cannot reach an explicit panic", ruleM3},
+			{"M5", "the refusal test of AdjustOffs measures the extent over all six components under the same presence test (Offs != 0) that the rebasing uses, before the refusal return", ruleM5},
 			{"M4", "Long tests the components in reverse URI order, exhaustively, each branch ending at the component it tested; Short is the sub-cascade Port,Host,User from the same start (prefix of Long); Truncate resets exactly Params and Headers", ruleM4},
 		},
 		Assumptions: []string{"component order in the struct is the textual order of a URI (C14)"},
 		NotDecided:  "'denotes the same bytes before and after' as a value statement; that the span pre-check computes the right extent (value arithmetic)",
 	})
+}
+
+// M5: the refusal test measures the extent with the same presence test and the same
+// component set as the rebasing (guard/use agreement between the pre-check and the move).
+func ruleM5(c *Ctx) {
+	fd := c.Decls["PsipURI.AdjustOffs"]
+	if fd == nil {
+		c.fail("M5", "AdjustOffs", token.NoPos, "not found")
+		return
+	}
+	u := fd.Recv.List[0].Names[0].Name
+	// statements before the first `return false`
+	var refusal token.Pos
+	ast.Inspect(fd.Body, func(n ast.Node) bool {
+		if r, ok := n.(*ast.ReturnStmt); ok && !refusal.IsValid() && len(r.Results) == 1 && c.src(r.Results[0]) == "false" {
+			refusal = r.Pos()
+		}
+		return true
+	})
+	if !refusal.IsValid() {
+		c.fail("M5", "AdjustOffs:refusal", fd.Pos(), "no refusal return")
+		return
+	}
+	ext := map[string]bool{}
+	ast.Inspect(fd.Body, func(n ast.Node) bool {
+		if n == nil || n.Pos() > refusal {
+			return true
+		}
+		switch s := n.(type) {
+		case *ast.RangeStmt:
+			cl, ok := unparen(s.X).(*ast.CompositeLit)
+			if !ok || s.Value == nil {
+				return true
+			}
+			f := c.src(s.Value)
+			body := c.src(s.Body)
+			if strings.Contains(body, f+".Offs != 0") && strings.Contains(body, f+".Offs + "+f+".Len") {
+				for _, el := range cl.Elts {
+					if p := c.src(el); strings.HasPrefix(p, u+".") {
+						ext[strings.TrimPrefix(p, u+".")] = true
+					}
+				}
+			}
+		case *ast.IfStmt:
+			cs := c.src(s.Cond)
+			for _, f := range c.pfieldsOf("PsipURI") {
+				x := u + "." + f
+				if strings.Contains(cs, x+".Offs != 0") && (strings.Contains(cs, x+".Offs + "+x+".Len") || strings.Contains(c.src(s.Body), x+".Offs + "+x+".Len")) {
+					ext[f] = true
+				}
+			}
+		}
+		return true
+	})
+	for _, f := range c.pfieldsOf("PsipURI") {
+		if f == "Scheme" {
+			continue
+		}
+		c.check(ext[f], "M5", "extent:"+f, fd.Pos(), "the refusal test measures component "+f+" (Offs+Len) under the same presence test (Offs != 0) the rebasing uses")
+	}
+	c.expectMin("M5", 6)
 }
